@@ -4,7 +4,7 @@ package gocql
 // exec / recv / closeWithError / releaseStream / addCall that the machine-checked connection model in
 // /verif (properties C01, C06) uses as labels. Without the "verif" build tag vConn is empty.
 const (
-	vcAlloc           = 1  // exec: stream reserved and callReq created            a = stream id
+	vcAlloc           = 1  // exec: stream reserved and callReq created            a = stream id, b = the harness's request number carried by ctx (0: none)
 	vcAddCall         = 2  // addCall, holding c.mu                               a = 0 registered, 1 refused: closed, 2 refused: id in use
 	vcTmoClose        = 3  // immediately before close(call.timeout)              a = site: 1 build error, 2 write error, 4 timer, 5 caller ctx, 6 conn ctx
 	vcDelCall         = 4  // exec error paths, holding c.mu, after the guarded delete
